@@ -1,6 +1,7 @@
 import TdVerif.Sexp
 import TdVerif.Model.C11Consolidate
 import TdVerif.Model.C11Pytree
+import TdVerif.Model.C11Rebuild
 
 namespace TdVerif.Drive
 open TdVerif Sexp TdVerif.C11
@@ -49,6 +50,8 @@ def op? : Sexp → Option Op
   | .list [.atom "unlock"] => some .unlock
   | .list [.atom "names", n] => do pure (.setNames (← optNames? n))
   | .list [.atom "rename", a, b] => do pure (.rename (← path? a) (← path? b))
+  | .list [.atom "swap", a, b] => do pure (.swap (← path? a) (← path? b))
+  | .list (.atom "assign" :: a :: b :: _) => do pure (.assign (← path? a) (← path? b))
   | _ => none
 
 def pathSx (p : List String) : Sexp := .list (p.map .atom)
@@ -89,6 +92,22 @@ partial def ptSx : PT → Sexp
 partial def specSx : Spec → Sexp
   | .leaf => .atom "*"
   | .node keys b n d kids => .list [.list (keys.map .atom), ofNats b, namesSx n, devSx d, .list (kids.map specSx)]
+
+def optNat? : Sexp → Option (Option Nat)
+  | .atom "none" => some none
+  | s => (asNat? s).map some
+
+def item? : Sexp → Option (Item Nat)
+  | .list [.atom "p", .atom k, v] => do pure (.plain k (← asNat? v))
+  | .list [.atom "j", .atom k, v, l, o] => do pure (.njt k (← asNat? v) (← optNat? l) (← asNat? o))
+  | _ => none
+
+def itemSx : Item Nat → Sexp
+  | .plain k v => .list [.atom "p", .atom k, ofNat v]
+  | .njt k v l o => .list [.atom "j", .atom k, ofNat v, (match l with | none => .atom "none" | some x => ofNat x), ofNat o]
+
+def tagSx : Tag → Sexp
+  | .plain => .atom "plain" | .values => .atom "values" | .lengths => .atom "lengths" | .offsets => .atom "offsets"
 
 end C11D
 open C11D
@@ -142,6 +161,24 @@ def handleC11 (cmd : String) (args : List Sexp) : Option Sexp :=
         | some (t', _) => ptSx t'
         | none => Sexp.atom "none"
       pure (.list [ofNats f.1, specSx f.2, r])
+  -- (c11.njt (item…)) -> ((tag key v)…) rebuilt rebuilt-without-reset
+  | "c11.njt", [.list items] => do
+      let items ← items.mapM item?
+      let flat := flattenItems items
+      let out := fun (r : Option (List (Item Nat))) => match r with
+        | some l => Sexp.list (l.map itemSx)
+        | none => Sexp.atom "none"
+      pure (.list [.list (flat.map fun (t, k, v) => .list [tagSx t, .atom k, ofNat v]),
+        out (rebuildLoop none none flat), out (rebuildLoopNoReset none none flat)])
+  -- (c11.lazyfrom ((key v)…)) -> members in stack order, or none
+  | "c11.lazyfrom", [.list d] => do
+      let d ← d.mapM fun p => match p with
+        | Sexp.list [Sexp.atom k, v] => (asNat? v).map fun n => (k, n)
+        | Sexp.list [k, v] => do pure (toString (← asNat? k), ← asNat? v)
+        | _ => none
+      match lazyFromDict d with
+      | some ms => pure (.list [ofNats ms, ofNats (lazyFromDictSorted d)])
+      | none => pure (.atom "none")
   | _, _ => none
 
 end TdVerif.Drive
